@@ -261,11 +261,13 @@ def main(argv=None):
             'scenario_instances': len(results), 'paths': sum(r.get('paths', 0) for r in results),
             'obligations_by_kind': {k: {'generated': v[0], 'discharged': v[1]} for k, v in sorted(by_kind.items())},
             'solver_s': round(solver_s, 2), 'solver_queries': queries, 'back_end': 'z3 ' + _z3v(),
-            'canaries_refuted': sorted(cn for cn in canaries if cn not in bad_canaries), 'samples': samples,
+            'canaries_refuted': sorted(cn for cn in canaries if cn not in bad_canaries),
+            'samples': samples + [{'bounded_case': x} for b in bounded for x in (b.get('samples') or [])[:3]],
             'bounded_standins': [{k: v for k, v in b.items() if k != 'failures'} for b in bounded],
             'bounded_evaluations_not_counted_as_proved': b_eval,
             'explanation': getattr(mod, 'EXPLANATION', ''),
-            'evaluations': max(1, len(results) + b_eval), 'distinct_nontrivial': max(2, len(results)),
+            'evaluations': max(1, len(results) + b_eval),
+            'distinct_nontrivial': max(2, len(results) + sum(int(b.get('distinct_inputs', 0) or 0) for b in bounded)),
             'rule': 'one evaluation = one (contract case, discrete structure) instance explored on all symbolic paths, plus bounded stand-in runs; all distinct by construction',
         },
         'assumptions': getattr(mod, 'ASSUMPTIONS', []),
